@@ -18,11 +18,14 @@ import (
 	"strings"
 	"testing"
 
+	"github.com/go-logr/logr"
 	"go.minekube.com/gate/pkg/edition/java/config"
 	"go.minekube.com/gate/pkg/edition/java/proto/packet"
+	"go.minekube.com/gate/pkg/edition/java/proto/state"
 	"go.minekube.com/gate/pkg/edition/java/proto/version"
 	"go.minekube.com/gate/pkg/edition/java/proxy/zzverif/vrt"
 	"go.minekube.com/gate/pkg/gate/proto"
+	"go.minekube.com/gate/pkg/util/netutil"
 	"go.minekube.com/gate/pkg/util/uuid"
 )
 
@@ -57,6 +60,86 @@ type c10Replay struct {
 	Path  string `json:"path,omitempty"`  // handler | wire
 	Proto int    `json:"proto,omitempty"` // protocol number
 	Fwd   string `json:"forwarding,omitempty"`
+	// Variant: "" = offline-mode proxy; online | online+force-offline | offline+force-online (PreLoginEvent
+	// result) | key (1.19.x client with a valid profile key) | no-force-key (forceKeyAuthentication: false)
+	Variant string `json:"variant,omitempty"`
+}
+
+// refBackendWireLogin is the ServerLogin a keyless player's backend must receive, by protocol era.
+func refBackendWireLogin(name string, id uuid.UUID, protocol proto.Protocol) []byte {
+	full := refWireLogin(name, id) // VarInt length, name, 16-byte UUID
+	nameOnly := full[:len(full)-16]
+	switch {
+	case protocol.GreaterEqual(version.Minecraft_1_20_2):
+		return full
+	case protocol.GreaterEqual(version.Minecraft_1_19_3): // optional UUID
+		return append(append(append([]byte{}, nameOnly...), 1), id[:]...)
+	case protocol.GreaterEqual(version.Minecraft_1_19_1): // no key, no UUID
+		return append(append([]byte{}, nameOnly...), 0, 0)
+	case protocol.GreaterEqual(version.Minecraft_1_19): // no key
+		return append(append([]byte{}, nameOnly...), 0)
+	}
+	return append([]byte{}, nameOnly...)
+}
+
+// backendSees opens the backend login of the admitted player through the real
+// serverConnection.startHandshake on a recording backend connection (forwarding none) and checks
+// the identity the backend is given: the username it derives the offline UUID from and, where the
+// protocol carries one, the UUID itself.
+func (h *c10) backendSees(pl Player, name string, wantID uuid.UUID, protocol proto.Protocol, keyed bool, rp c10Replay) {
+	r := h.r
+	cp, ok := pl.(*connectedPlayer)
+	if !ok {
+		r.Violation("harness/player-type", fmt.Sprintf("%T", pl), rp)
+		return
+	}
+	target := newRegisteredServer(NewServerInfo("backend", netutil.NewAddr("127.0.0.1:25566", "tcp")))
+	backend := newKitConn("backend", protocol)
+	backend.AddSessionHandler(state.Login, nopSessionHandler{})
+	sc := &serverConnection{server: target, player: cp, log: logr.Discard(), connection: backend}
+	resultChan := make(chan *connResponse, 1)
+	resultChan <- &connResponse{}
+	var err error
+	if p, v := vrt.Catch(func() { _, err = sc.startHandshake(func() {}, resultChan) }); p {
+		r.Violation("backend-login/panic", fmt.Sprintf("name %q: %v", name, v), rp)
+		return
+	}
+	if err != nil {
+		r.Violation("backend-login/error", fmt.Sprintf("name %q: %v", name, err), rp)
+		return
+	}
+	var sl *packet.ServerLogin
+	n := 0
+	for _, p := range backend.packets() {
+		if t, ok := p.(*packet.ServerLogin); ok {
+			sl = t
+			n++
+		}
+	}
+	if n != 1 {
+		r.Violation("backend-login/server-login-count", fmt.Sprintf("name %q: backend got %d ServerLogin packets: %s", name, n, backend.trace()), rp)
+		return
+	}
+	r.Class("backend-login:observed")
+	if sl.Username != name {
+		r.Violation("backend-login/username-differs", fmt.Sprintf("name %q: backend is told %q (its offline UUID would be %s, not %s)", name, sl.Username, refOfflineUUID(sl.Username), wantID), rp)
+		return
+	}
+	if keyed {
+		return // a 1.19.x profile key travels instead of the UUID
+	}
+	if sl.HolderID != uuid.Nil && sl.HolderID != wantID {
+		r.Violation("backend-login/uuid-not-offline-uuid", fmt.Sprintf("name %q proto %d: backend ServerLogin carries %s, vanilla offline UUID is %s", name, protocol, sl.HolderID, wantID), rp)
+		return
+	}
+	var buf bytes.Buffer
+	if e := sl.Encode(&proto.PacketContext{Direction: proto.ServerBound, Protocol: protocol}, &buf); e != nil {
+		r.Violation("backend-login/encode", fmt.Sprintf("name %q: %v", name, e), rp)
+		return
+	}
+	if want := refBackendWireLogin(name, wantID, protocol); !bytes.Equal(buf.Bytes(), want) {
+		r.Violation("backend-login/wire-identity-differs", fmt.Sprintf("name %q proto %d: backend receives % x, expected % x (name + offline UUID %s)", name, protocol, buf.Bytes(), want, wantID), rp)
+	}
 }
 
 type c10 struct {
@@ -109,13 +192,31 @@ func refWireLogin(name string, id uuid.UUID) []byte {
 
 // login runs one username through a fresh session and checks admission + identity.
 func (h *c10) login(name, path string, protocol proto.Protocol, fwd config.ForwardingMode, count bool) {
+	h.loginV(name, path, protocol, fwd, "", count)
+}
+
+func (h *c10) loginV(name, path string, protocol proto.Protocol, fwd config.ForwardingMode, variant string, count bool) {
 	r := h.r
 	r.Eval(1)
-	rp := c10Replay{Kind: "login", Name: hex.EncodeToString([]byte(name)), Path: path, Proto: int(protocol), Fwd: string(fwd)}
+	rp := c10Replay{Kind: "login", Name: hex.EncodeToString([]byte(name)), Path: path, Proto: int(protocol), Fwd: string(fwd), Variant: variant}
 	cfg := kitConfig()
-	cfg.OnlineMode = false
+	cfg.OnlineMode = strings.HasPrefix(variant, "online")
 	cfg.Forwarding.Mode = fwd
+	if variant == "no-force-key" {
+		cfg.ForceKeyAuthentication = false
+	}
+	// does the player end up with an offline identity, or is it sent to authenticate (encryption request)?
+	wantsEncryption := variant == "online" || variant == "offline+force-online"
 	s := newKitSession(cfg, protocol)
+	switch variant {
+	case "online+force-offline":
+		kitOn(s.Events, func(e *PreLoginEvent) { e.ForceOfflineMode() })
+	case "offline+force-online":
+		kitOn(s.Events, func(e *PreLoginEvent) { e.ForceOnlineMode() })
+	}
+	if variant != "" {
+		r.Class("variant:" + variant)
+	}
 	s.handshake()
 	if _, ok := s.Conn.active.(*initialLoginSessionHandler); !ok {
 		r.Violation("harness/handshake-did-not-reach-login", s.Conn.trace(), rp)
@@ -130,6 +231,9 @@ func (h *c10) login(name, path string, protocol proto.Protocol, fwd config.Forwa
 	})
 
 	login := &packet.ServerLogin{Username: name}
+	if variant == "key" {
+		login.PlayerKey = &kitClientKey{mojangValid: true}
+	}
 	decodeRejected := false
 	if path == "wire" {
 		login = &packet.ServerLogin{}
@@ -155,6 +259,7 @@ func (h *c10) login(name, path string, protocol proto.Protocol, fwd config.Forwa
 	var success *packet.ServerLoginSuccess
 	nSuccess := 0
 	var disconnect *packet.Disconnect
+	nEncReq := 0
 	for _, p := range s.Conn.packets() {
 		switch t := p.(type) {
 		case *packet.ServerLoginSuccess:
@@ -162,6 +267,8 @@ func (h *c10) login(name, path string, protocol proto.Protocol, fwd config.Forwa
 			nSuccess++
 		case *packet.Disconnect:
 			disconnect = t
+		case *packet.EncryptionRequest:
+			nEncReq++
 		}
 	}
 	pre1202 := protocol.Lower(version.Minecraft_1_20_2)
@@ -171,7 +278,7 @@ func (h *c10) login(name, path string, protocol proto.Protocol, fwd config.Forwa
 	} else {
 		registered = s.Proxy.Player(wantID)
 	}
-	admitted := success != nil || registered != nil || s.Proxy.PlayerCount() > 0
+	admitted := success != nil || registered != nil || s.Proxy.PlayerCount() > 0 || nEncReq > 0
 	if count {
 		r.Class(nameClass(name))
 		if want {
@@ -206,6 +313,12 @@ func (h *c10) login(name, path string, protocol proto.Protocol, fwd config.Forwa
 		}
 		return
 	}
+	if wantsEncryption || nEncReq != 0 {
+		// the name passed the username check and the client is asked to authenticate: this is not an
+		// offline-mode player, the statement's identity clauses do not apply (the login outcome is C08's subject)
+		r.Class("outcome:passed-check-sent-to-authentication")
+		return
+	}
 	// admitted: identity checks
 	if nSuccess != 1 {
 		r.Violation("login/login-success-count", fmt.Sprintf("name %q: %d ServerLoginSuccess packets; conn: %s", name, nSuccess, s.Conn.trace()), rp)
@@ -228,6 +341,9 @@ func (h *c10) login(name, path string, protocol proto.Protocol, fwd config.Forwa
 	if registered.OnlineMode() {
 		r.Violation("login/offline-player-marked-online", fmt.Sprintf("name %q", name), rp)
 	}
+	if fwd == config.NoneForwardingMode {
+		h.backendSees(registered, name, wantID, protocol, variant == "key", rp)
+	}
 }
 
 func TestVerif(t *testing.T) {
@@ -240,7 +356,7 @@ func TestVerif(t *testing.T) {
 			if rp.Kind == "uuid" {
 				h.checkUUID(string(nb))
 			} else {
-				h.login(string(nb), rp.Path, proto.Protocol(rp.Proto), config.ForwardingMode(rp.Fwd), false)
+				h.loginV(string(nb), rp.Path, proto.Protocol(rp.Proto), config.ForwardingMode(rp.Fwd), rp.Variant, false)
 			}
 			return
 		}
@@ -321,8 +437,15 @@ func TestVerif(t *testing.T) {
 			if len(name) > 0 {
 				h.login(name, "wire", p1202, config.NoneForwardingMode, false)
 			}
+			// the username check does not depend on the proxy's online mode: same names, online-mode proxy
+			h.loginV(name, "handler", p1202, config.NoneForwardingMode, "online", false)
 			// other forwarding modes and the pre-1.20.2 completion path on a thinner slice
 			if i%7 == 0 || refNameOK(name) {
+				h.loginV(name, "handler", p1202, config.NoneForwardingMode, "online+force-offline", false)
+				h.loginV(name, "handler", p1202, config.NoneForwardingMode, "offline+force-online", false)
+				h.loginV(name, "handler", version.Minecraft_1_19_1.Protocol, config.NoneForwardingMode, "key", false)
+				h.loginV(name, "handler", version.Minecraft_1_19_1.Protocol, config.NoneForwardingMode, "no-force-key", false)
+				h.loginV(name, "handler", version.Minecraft_1_19.Protocol, config.NoneForwardingMode, "no-force-key", false)
 				h.login(name, "handler", p1202, config.LegacyForwardingMode, false)
 				h.login(name, "handler", version.Minecraft_1_8.Protocol, config.NoneForwardingMode, false)
 				h.login(name, "handler", version.Minecraft_1_19_3.Protocol, config.NoneForwardingMode, false)
